@@ -15,7 +15,7 @@ use rosu_pp::{
 };
 
 use crate::{
-    common::{guarded, resource_maps, Run},
+    common::{guarded, resource_maps, LazerTag, ModsSpec, Run},
     rng::Rng,
     svops::hex,
 };
@@ -164,6 +164,83 @@ fn check(run: &mut Run, id: &str, bytes: &[u8], mods: u32, rate: Option<f64>, ta
     run.line(id, req, resp);
 }
 
+fn build_x(ho: bool, inv: bool, rate: Option<f64>, take: Option<u32>) -> Difficulty {
+    let mut tags = Vec::new();
+    if ho {
+        tags.push(LazerTag::HoldOff);
+    }
+    if inv {
+        tags.push(LazerTag::Invert);
+    }
+    let mut d = Difficulty::new().mods(ModsSpec::Lazer(tags).build(3));
+    if let Some(r) = rate {
+        d = d.clock_rate(r);
+    }
+    if let Some(t) = take {
+        d = d.passed_objects(t);
+    }
+    d
+}
+
+/// A native mania file under HoldOff / Invert: `PIPE maniax` line.
+fn check_maniax(run: &mut Run, id: &str, bytes: &[u8], ho: bool, inv: bool, rate: Option<f64>, take: Option<u32>) {
+    let hexb: String = if bytes.is_empty() { "-".to_owned() } else { bytes.iter().map(|b| format!("{b:02x}")).collect() };
+    let req = format!(
+        "PIPE maniax {hexb} {}{} {} {}",
+        u8::from(ho),
+        u8::from(inv),
+        rate.map_or("-".to_owned(), |r| hex(r.to_bits())),
+        take.map_or("-".to_owned(), |t| t.to_string())
+    );
+    let repro = format!("maniax ho={ho} invert={inv} rate={rate:?} take={take:?} bytes=<<{}>>", String::from_utf8_lossy(bytes));
+    run.repro.insert(id.to_owned(), repro.clone());
+    let map = match guarded(|| Beatmap::from_bytes(bytes)) {
+        Ok(Ok(m)) => m,
+        Ok(Err(_)) => {
+            run.line(id, req, "IOERR".to_owned());
+            return;
+        }
+        Err(e) => {
+            run.fail("oracle:pipe-decode-panic", "", id, e, repro);
+            return;
+        }
+    };
+    if map.mode != GameMode::Mania {
+        run.line(id, req, format!("NOTMANIA {}", map.mode as u8));
+        return;
+    }
+    if map.hit_objects.iter().any(|h| !h.is_circle() && !h.is_hold_note()) {
+        run.count("pipex:stage:unsupported-spinner-or-slider-line");
+        run.line(id, req, "UNSUPPORTED".to_owned());
+        return;
+    }
+    let attrs = match guarded(|| build_x(ho, inv, rate, take).calculate_for_mode::<Mania>(&map)) {
+        Ok(Ok(a)) => a,
+        other => {
+            run.fail("oracle:pipe-calculate-failed", "", id, format!("{other:?}"), repro);
+            return;
+        }
+    };
+    run.count(&format!("pipex:stage:stars:ho{}in{}", u8::from(ho), u8::from(inv)));
+    let mut resp = format!("S{} C{} N{} H{} V{}", show_z(attrs.stars), attrs.max_combo, attrs.n_objects, attrs.n_hold_notes, u8::from(attrs.is_convert));
+    if ho && attrs.n_hold_notes != 0 && !inv {
+        run.fail("oracle:pipe-holdoff-leaves-hold-notes", "", id, format!("{attrs:?}"), repro.clone());
+    }
+    if take.is_none() {
+        if let Ok(Ok(grad)) = guarded(|| ManiaGradualDifficulty::new(build_x(ho, inv, rate, None), &map).map(|g| g.collect::<Vec<_>>())) {
+            let steps: Vec<String> = grad.iter().map(|a| format!("{}:{}:{}:{}", show_z(a.stars), a.max_combo, a.n_objects, a.n_hold_notes)).collect();
+            resp.push_str(&format!(" G{}", show_long(&steps)));
+            if let Some(last) = grad.last() {
+                if *last != attrs {
+                    run.fail("oracle:pipe-gradual-last-vs-full", "", id, format!("{last:?} vs {attrs:?}"), repro.clone());
+                }
+            }
+            run.count("pipex:stage:gradual");
+        }
+    }
+    run.line(id, req, resp);
+}
+
 /// One native-taiko case: `PIPE taiko` line.
 fn check_taiko(run: &mut Run, id: &str, bytes: &[u8], mods: u32, rate: Option<f64>, take: Option<u32>) {
     let hexb: String = if bytes.is_empty() { "-".to_owned() } else { bytes.iter().map(|b| format!("{b:02x}")).collect() };
@@ -225,22 +302,30 @@ fn check_taiko(run: &mut Run, id: &str, bytes: &[u8], mods: u32, rate: Option<f6
     if attrs.max_combo as usize != want_combo {
         run.fail("oracle:pipe-taiko-max-combo", "", id, format!("max_combo {} for {hits} hits, take {take:?}", attrs.max_combo), repro.clone());
     }
-    // gradual values: only in the class the C02 theorem covers (>= 3 objects, the first two are
-    // hits, the last is a hit) — the other classes are the recorded taiko gradual findings
-    let regular = take.is_none()
-        && n >= 3
-        && map.hit_objects[0].is_circle()
-        && map.hit_objects[1].is_circle()
-        && map.hit_objects[n - 1].is_circle();
+    // gradual values: every native taiko file (since the repair /repo ea9de37 the gradual calculator
+    // agrees with the one-shot path for every object list); only the final-vs-full comparison
+    // needs "the last object is a hit" (recorded finding taiko-gradual-trailing-nonhit)
+    let regular = take.is_none();
+    let last_is_hit = n > 0 && map.hit_objects[n - 1].is_circle();
     let mut gtail = String::new();
     let mut gflag = "";
     if regular {
         if let Ok(Ok(vals)) = guarded(|| TaikoGradualDifficulty::new(build(mods, rate, None), &map).map(|g| g.collect::<Vec<_>>())) {
             run.count("tpipe:stage:gradual");
             let steps: Vec<String> = vals.iter().map(|a| format!("{}:{}", show_z(a.stars), a.max_combo)).collect();
+            let hits = map.hit_objects.iter().filter(|h| h.is_circle()).count();
+            if vals.len() != hits {
+                run.fail("oracle:pipe-taiko-gradual-count", "", id, format!("{} values for {hits} hits", vals.len()), repro.clone());
+            }
+            if n < 3 || !map.hit_objects[0].is_circle() || !map.hit_objects[1].is_circle() {
+                run.count("tpipe:gradual:formerly-excluded-class");
+            }
             gtail = format!(" G{}", crate::common::show_long(&steps));
             gflag = " G";
-            if let Some(last) = vals.last() {
+            if !last_is_hit {
+                run.count("tpipe:gradual:last-object-not-a-hit");
+            }
+            if let Some(last) = vals.last().filter(|_| last_is_hit) {
                 if *last != attrs {
                     run.fail("oracle:pipe-taiko-gradual-last-vs-full", "", id, format!("{last:?} vs {attrs:?}"), repro.clone());
                 }
@@ -501,6 +586,16 @@ pub fn run(run: &mut Run, tier: &str, seed: u64, only: Option<&str>) {
             2 => vec![(0, Some(*rng.pick(&[0.5, 0.75, 1.1, 1.3, 1.5, 2.0, 0.001, 250.0])))],
             _ => vec![(*rng.pick(&[0u32, 64, 256]), Some(*rng.pick(&[0.9, 1.25, 1.7777])))],
         };
+        // HoldOff / Invert (lazer mods) on the same bytes
+        {
+            let (ho, inv) = *rng.pick(&[(true, false), (false, true), (true, true)]);
+            let rate = *rng.pick(&[None, None, Some(1.5), Some(0.8)]);
+            check_maniax(run, &format!("{id}#x"), &bytes, ho, inv, rate, None);
+            let n = n_lines as u32;
+            for t in [0u32, 1, 2, n / 2, n + 3] {
+                check_maniax(run, &format!("{id}#x#p{t}"), &bytes, ho, inv, rate, Some(t));
+            }
+        }
         for (si, (mods, rate)) in settings.into_iter().enumerate() {
             check(run, &format!("{id}#s{si}"), &bytes, mods, rate, None);
             let mut takes: Vec<u32> = vec![0, 1, 2, 3];
